@@ -159,9 +159,11 @@ def build_and_run(case, v: int, seed: int):
         prot["zip"] = "DEF"
         good = R.deflate_raw(b"some plaintext to compress " * 20)
         deflate = {"corrupt": bytes(rnd.randrange(256) for _ in range(40)), "truncated": good[:len(good) // 2], "empty": b"",
-                   "notjson": good, "nonobject": good, "bomb": R.deflate_raw(b"\0" * 300000)}[cls]
+                   "notjson": good, "nonobject": good, "bomb": R.deflate_raw(b"\0" * 300000),
+                   "short": bytes([v % 256]) if v < 256 else bytes([v % 256, (v * 7 + 3) % 256])}[cls]
     if kind == "inner" and name == "claims":
-        pt = {"notjson": b"not json", "nonobject": b"[1]", "corrupt": b"\xff\xfe", "truncated": b'{"a":', "empty": b"", "bomb": b"1"}[cls]
+        pt = {"notjson": b"not json", "nonobject": b"[1]", "corrupt": b"\xff\xfe", "truncated": b'{"a":', "empty": b"", "bomb": b"1",
+              "short": bytes([v % 256])}[cls]
     hdr_raw = None
 
     def mutate(p_, u_, rs_):
@@ -189,7 +191,13 @@ def build_and_run(case, v: int, seed: int):
             elif cls == "str_badb64": epk[sub] = "!!! not base64 !!!"
             elif cls == "str_shortb64": epk[sub] = "AAAA"
             elif cls == "int": epk[sub] = 7
-            elif cls == "list": epk[sub] = ["P-256"] if sub not in ("use", "key_ops") else ["sign"]
+            elif cls == "list":
+                epk[sub] = ["P-256"] if sub not in ("use", "key_ops") else ["sign"]
+                if sub == "use":            # a list of well-formed values, alone and together with the member it is checked against
+                    epk["use"] = ["enc"]
+                    if v % 2 == 0: epk["key_ops"] = ["deriveKey"]
+                elif sub == "key_ops" and v % 2 == 0:
+                    epk["key_ops"] = ["deriveKey"]; epk["use"] = "enc"
             elif cls == "null": epk[sub] = None
             elif cls == "obj": epk[sub] = {"a": 1} if v % 2 else {}
             elif cls == "list_nested": epk[sub] = [["sig"]] if v % 2 else [[]]
@@ -275,7 +283,8 @@ def run_chunk(args):
     items, seed, nvar = args
     out = []
     for idx, case in items:
-        for v in range(nvar):
+        # "short" contents are few enough to try them all: every one-octet stream and a two-octet one for each first octet
+        for v in (range(512) if case["class"] == "short" else range(nvar)):
             try:
                 o = build_and_run(case, v, seed)
             except Exception as e:  # noqa
